@@ -5,7 +5,7 @@ From Coq Require Import List Arith ZArith Reals Lra Lia Bool.
 From TLV Require Import Base.Shape Base.PyList Base.Tensor Base.BigSum Base.Ops Model.Transforms
   Proofs.TransformsProofs Proofs.TransformsProofsR Proofs.TransformsProofsTT Proofs.TransformsProofsTucker
   Proofs.TransformsProofsPf2 Proofs.TransformsProofsR2 Proofs.TransformsProofsFlip Proofs.TransformsProofsApi Proofs.TransformsProofsPermList
-  Proofs.TransformsProofsTTM Proofs.TransformsProofsOrtho Proofs.TransformsProofsNegMode Proofs.TransformsProofsAlign.
+  Proofs.TransformsProofsTTM Proofs.TransformsProofsOrtho Proofs.TransformsProofsNegMode Proofs.TransformsProofsNegMode2 Proofs.TransformsProofsAlign.
 Import ListNotations.
 
 (* --- cp_permute_factors: any column permutation applied to all factors and the weights *)
@@ -428,6 +428,21 @@ Theorem C04_cp_flip_sign_z_entry : forall (F : Type) (Op : fops F), ring_theory 
   cp_entry Op w' fs' idx = cp_entry Op w fs idx.
 Proof. exact @cp_flip_sign_z_entry. Qed.
 Print Assumptions C04_cp_flip_sign_z_entry.
+
+Theorem C04_cp_flip_sign_z_canonical : forall (F : Type) (Op : fops F),
+  ring_theory (f0 Op) (f1 Op) (fadd Op) (fmul Op) (fsub Op) (fopp Op) (@eq F) ->
+  forall summ : list F -> F,
+  (forall x, fmul Op (colsign Op x) (colsign Op x) = f1 Op) ->
+  (forall x, fmul Op (colsign Op x) (fabs Op x) = x) ->
+  (forall c l, summ (map (fun x => fmul Op x c) l) = fmul Op (summ l) c) ->
+  forall (w : list F) (fs : list (mat F)) (mode : Z) w' fs',
+  cp_flip_sign_z Op summ w fs mode = Ok (w', fs') ->
+  exists k, norm_mode (length fs) mode = Some k /\
+  w' = map (fabs Op) w /\ length fs' = length fs /\
+  forall jj r, jj < length fs -> jj <> k -> r < length w ->
+    summ (col Op (nth jj fs' []) r) = fabs Op (summ (col Op (nth jj fs []) r)).
+Proof. exact @cp_flip_sign_z_canonical. Qed.
+Print Assumptions C04_cp_flip_sign_z_canonical.
 
 Theorem C04_cp_flip_sign_z_entry_R : forall (summ : list R -> R) (w : list R) (fs : list (mat R)) (mode : Z) w' fs' idx,
   cp_flip_sign_z Rops summ w fs mode = Ok (w', fs') -> length idx = length fs ->
